@@ -31,8 +31,11 @@ class DimensionRenamer(Transformer):
         self.sample_dims_before = sample_dims
         self.feature_dims_before = feature_dims
 
+        # Name the sample dimensions first so that they receive the same names
+        # for every element of a list of data objects, whatever their dimension order
+        ordered_dims = [*sample_dims, *[d for d in X.dims if d not in sample_dims]]
         self.dim_mapping = {
-            dim: f"{self.base}{i}" for i, dim in enumerate(X.dims, start=self.start)
+            dim: f"{self.base}{i}" for i, dim in enumerate(ordered_dims, start=self.start)
         }
 
         self.sample_dims_after: Dims = tuple(
